@@ -107,6 +107,16 @@ pub fn expr_params(e: &E, out: &mut Col) {
                 out.push(PV::Int(*y));
             }
         }
+        E::InTuplesN(cols, rows) => {
+            for c in cols {
+                expr_params(c, out);
+            }
+            for r in crate::expr_spec::rows_n(cols.len(), rows) {
+                for x in r {
+                    out.push(PV::Int(x));
+                }
+            }
+        }
         other => {
             for c in other.children() {
                 expr_params(c, out);
